@@ -512,6 +512,27 @@ func r11d(c *an.Ctx, stateTab map[[2]int64]int64) {
 						leaf = reachedOnlyFromLeafAsserts(blk)
 					}
 					if !leaf {
+						// the test may have travelled through a boolean (an extracted `isLeafRole(r)`): every alternative way of
+						// reaching the block must contain a successful leaf assertion
+						alts := an.AtomAlts(blk)
+						all := len(alts) > 0
+						for _, alt := range alts {
+							has := false
+							for _, a := range alt {
+								if ex, isEx := a.X.(*ssa.Extract); isEx && a.Y == nil && a.Val {
+									if ta, isTA := ex.Tuple.(*ssa.TypeAssert); isTA {
+										n := an.TypeShort(ta.AssertedType)
+										if n == "*workflow.taskRole" || n == "*workflow.callRole" {
+											has = true
+										}
+									}
+								}
+							}
+							all = all && has
+						}
+						leaf = all
+					}
+					if !leaf {
 						bad = append(bad, "the incoming value is assigned directly for a role that is not a task/call leaf")
 					}
 				case *ssa.Call:
